@@ -349,6 +349,71 @@ func checkC06(w *World, r *Report) {
 					guarded = true
 				}
 			}
+			// ... or under a membership helper: `isListed(clientList, supported[i])` answered true
+			for v, t := range e.State.Facts {
+				hc, ok := v.(*ssa.Call)
+				if !ok || !t || guarded {
+					continue
+				}
+				h := hc.Call.StaticCallee()
+				if h == nil || !inModule(h) || len(h.Blocks) == 0 {
+					continue
+				}
+				vi, li := -1, -1
+				for i, a := range hc.Call.Args {
+					if a == rv {
+						vi = i
+					}
+					for _, root := range provenance(a, provOpts{}) {
+						if c, ok := root.(*ssa.Call); ok {
+							if f := sCallee(c); f != nil && f.Name() == "SplitField" && len(c.Call.Args) == 1 && c.Call.Args[0] == ssa.Value(fn.Params[1]) {
+								li = i
+							}
+						}
+					}
+				}
+				if vi < 0 || li < 0 || vi >= len(h.Params) || li >= len(h.Params) {
+					continue
+				}
+				elemOfList := func(x ssa.Value) bool {
+					u, ok := x.(*ssa.UnOp)
+					if !ok {
+						return false
+					}
+					ia, ok := u.X.(*ssa.IndexAddr)
+					if !ok {
+						return false
+					}
+					for _, root := range provenance(ia.X, provOpts{}) {
+						if root == ssa.Value(h.Params[li]) {
+							return true
+						}
+					}
+					return false
+				}
+				isVal := func(x ssa.Value) bool {
+					for _, root := range provenance(x, provOpts{}) {
+						if root == ssa.Value(h.Params[vi]) {
+							return true
+						}
+					}
+					return false
+				}
+				if predicateHelperImplies(h, true, func(facts map[ssa.Value]bool) bool {
+					for v2, t2 := range facts {
+						b, ok := v2.(*ssa.BinOp)
+						if !ok || b.Op != token.EQL || !t2 {
+							continue
+						}
+						if (isVal(b.X) && elemOfList(b.Y)) || (isVal(b.Y) && elemOfList(b.X)) {
+							return true
+						}
+					}
+					return false
+				}) {
+					guarded = true
+				}
+			}
 			if !guarded {
 				bad = "a supported version is selected without an equality test against an element of the client's list"
 			}
